@@ -77,12 +77,30 @@ pub fn generate(rng: &mut Rng, seed: u64, run: u64, max_len: usize) -> Trace {
         // a second, independent strip stream is fed between the calls of this one
         params.push(("twin_stream".to_string(), 1));
     }
+    if rng.chance(1, 4) {
+        params.push(("predecessor_stream".to_string(), 1));
+    }
+    if rng.chance(1, 2) {
+        // a client that logs a failed write_all / write! and carries on with the next record
+        params.push(("moves_on_after_failed_record".to_string(), 1));
+    }
     Trace { prop: "C06".into(), surface: surface.into(), input: wl.bytes, ops, faults, params, seed, run }
 }
 
 /// What the twin stream is fed (in irregular pieces, between the calls on the stream under test):
 /// escape-rich, with sequences, strings and multi-byte characters for the pieces to end in.
 const TWIN_INPUT: &str = "\x1b[1;31mred\x1b[0m \x1b]0;title\x07plain \u{20ac}\u{1f600} \x1b[38;5;196mX\x1b[m\x1bPq#payload\x1b\\tail\n\x1b_apc\x1b\\ \x1b(B\u{e9}nd ";
+
+/// The client gave up on one record (a failed `write_all` / `write!`), sent CAN to abandon
+/// whatever sequence the stream may have been left in, and carries on with the records after it.
+struct Aftermath {
+    /// what the inner writer held right after the failed call
+    base_len: usize,
+    /// stripped form of the input up to the end of the failed record
+    f: Vec<u8>,
+    /// input offset of the first record after the failed one
+    resume: usize,
+}
 
 struct Twin {
     stream: anstream::StripStream<Vec<u8>>,
@@ -160,6 +178,8 @@ struct Client<'a> {
     since_check: usize,
     resilient: bool,
     twin: Option<Twin>,
+    moves_on: bool,
+    aftermath: Option<Aftermath>,
 }
 
 impl Client<'_> {
@@ -184,6 +204,34 @@ impl Client<'_> {
     fn check_invariants(&mut self, strict: bool, after: &str) -> Option<Violation> {
         let st = self.h.st();
         let d = &st.accepted;
+        if let Some(am) = &self.aftermath {
+            // after a record was given up: what arrived before stays, the rest of the failed
+            // record may still arrive (late, in order, at most once), and everything after it is the
+            // stripped form of the records handed over since - nothing of the failed record twice
+            if !strict {
+                return None;
+            }
+            let tail = strip_bytes(&self.t.input[am.resume..self.c]).into_vec();
+            let ok = d.len() >= tail.len() && d.ends_with(&tail) && {
+                let head = &d[..d.len() - tail.len()];
+                head.len() >= am.base_len && am.f.starts_with(head)
+            };
+            if !ok {
+                let class = if d.len() > am.base_len + tail.len() { "dup-bytes" } else { acct_class(d, &[&am.f[..am.base_len.min(am.f.len())], &tail[..]].concat()) };
+                return viol(
+                    class,
+                    format!(
+                        "after {after}: the client had given up on the record ending at input offset {} (the inner writer held {} bytes then: {:?}), sent CAN and carried on; the records since strip to {:?}, but the inner writer now holds {:?} - not <what it held, optionally more of the failed record in order> followed by the later records",
+                        am.resume,
+                        am.base_len,
+                        lossy(&d[..am.base_len.min(d.len())]),
+                        lossy(&tail),
+                        lossy(d)
+                    ),
+                );
+            }
+            return None;
+        }
         if strict {
             let s = strip_bytes(&self.t.input[..self.c]).into_vec();
             if *d != s {
@@ -385,6 +433,24 @@ impl Client<'_> {
                 } else {
                     self.st.probe("display_kept_writing_after_error");
                 }
+                // (only when the failed record ends on a character boundary: a stream left inside a
+                // multi-byte character treats the next byte as part of it - C01's subject)
+                if self.moves_on && self.aftermath.is_none() && !fmt_keeps_going(op) && is_char_boundary(&self.t.input, c_before + buf.len()) {
+                    // error aftermath: the client logs the failure and carries on with the next
+                    // record on the same stream.  CAN abandons whatever sequence the stream was
+                    // left in (where exactly it stopped inside the failed record is unspecified)
+                    let base_len = self.h.st().accepted.len();
+                    let fail_end = c_before + buf.len();
+                    let resync = catch(|| sut.write_all(b"\x18"));
+                    if !matches!(resync, Ok(Ok(()))) {
+                        return Ok(true);
+                    }
+                    self.aftermath = Some(Aftermath { base_len, f: strip_bytes(&self.t.input[..fail_end]).into_vec(), resume: fail_end });
+                    self.c = fail_end;
+                    self.st.probe("history_moved_on_after_failed_record");
+                    self.note("client gives up on this record, sends CAN and carries on with the next one".into());
+                    return Ok(false);
+                }
                 Ok(true)
             }
             (res, Applied::FmtFail) => {
@@ -485,6 +551,10 @@ impl Client<'_> {
                 refusals = 0;
             }
         }
+        if self.aftermath.is_some() {
+            self.st.probe("history_finished_after_a_failed_record");
+            return self.check_invariants(true, "end of history");
+        }
         self.st.probe("history_delivered_everything");
         let st = self.h.st();
         if st.accepted != self.e {
@@ -524,6 +594,8 @@ pub fn execute(t: &Trace, stats: &mut Stats, record: bool) -> Outcome {
         since_check: 0,
         resilient: t.param("resilient_client") == Some(1),
         twin: if t.param("twin_stream") == Some(1) { Some(Twin { stream: anstream::StripStream::new(Vec::new()), fed: 0, steps: 0 }) } else { None },
+        moves_on: t.param("moves_on_after_failed_record") == Some(1) && std::str::from_utf8(&t.input).is_ok(),
+        aftermath: None,
     };
     client.hash.str(&t.surface);
     if t.faults.is_empty() {
@@ -532,6 +604,17 @@ pub fn execute(t: &Trace, stats: &mut Stats, record: bool) -> Outcome {
         client.st.probe("config_faulty");
     }
 
+    if t.param("predecessor_stream") == Some(1) {
+        // other stream objects lived (and were unwrapped or dropped) on this thread first, ending
+        // inside a string and inside a character: nothing of them may carry over
+        let mut pre = anstream::StripStream::new(Vec::new());
+        let _ = pre.write_all(b"pre\x1b]0;unterminated title \xe2\x82");
+        let _ = pre.into_inner();
+        let mut pre = anstream::AutoStream::never(Vec::new());
+        let _ = write!(pre, "{}", "pre\x1b[1;3");
+        drop(pre);
+        client.st.probe("predecessor_streams_first");
+    }
     let violation = match t.surface.as_str() {
         "strip_box" => {
             let inner: Box<dyn Write> = Box::new(w);
